@@ -124,6 +124,27 @@ def qcurve_cases(chk, ac, a, cases, descr):
                                                                        fhex(seg.b), flist(spans), ftrip(got)))
             descr.append(dict(what="quarter-chord-points", segment=seg.name))
             chk.count("qcurve=points/" + seg.side)
+            # the section dihedral derived from the points: finite-difference window, argument arrangement per side, arctan2 as an oracle
+            rows_, tab_ = [], {}
+            srows_, tat_, tsq_ = [], {}, {}
+            for s_ in [float(x) for x in seg.cp_span_locs]:
+                lo, hi = (s_, s_ + 0.01) if s_ < 0.005 else ((s_ - 0.01, s_) if s_ > 0.995 else (s_ - 0.005, s_ + 0.005))
+                p0 = [float(x) for x in seg._get_quarter_chord_loc(lo)]
+                p1 = [float(x) for x in seg._get_quarter_chord_loc(hi)]
+                dz_, dy_ = p1[2] - p0[2], p1[1] - p0[1]
+                a_, b_ = (-dz_, -dy_) if left else (dz_, dy_)
+                tab_[(float(a_).hex(), float(b_).hex())] = (float(a_), float(b_), float(np.arctan2(a_, b_)))
+                rows_.append("(%s, (%s, %s), (%s, %s))" % (fhex(s_), fhex(lo), fhex(hi), ft3(p0), ft3(p1)))
+                # ... and the section sweep: -arctan(dx / sqrt(dy**2 + dz**2)), negated on the left (x**2 on a NumPy scalar is pow: an oracle)
+                for v_ in (dy_, dz_):
+                    tsq_[float(v_).hex()] = (float(v_), float(np.float64(v_) ** 2))
+                t_ = float((p1[0] - p0[0]) / np.sqrt(np.float64(dy_) ** 2 + np.float64(dz_) ** 2))
+                tat_[t_.hex()] = (t_, float(np.arctan(t_)))
+                srows_.append("(%s, %s)" % (ft3(p0), ft3(p1)))
+            cases.append("chk_dihedral_points %s %s [%s] %s" % (ftable2(list(tab_.values())), cbool(left), "; ".join(rows_), flist(seg.dihedral_cp)))
+            descr.append(dict(what="dihedral-from-points", segment=seg.name))
+            cases.append("chk_sweep_points %s %s %s [%s] %s" % (ftable(list(tat_.values())), ftable(list(tsq_.values())), cbool(left), "; ".join(srows_), flist(seg.sweep_cp)))
+            descr.append(dict(what="sweep-from-points", segment=seg.name))
         elif di is not None and sw is not None:
             disc = py_discont(w)
             cps = [float(x) for x in seg.cp_span_locs]
@@ -478,6 +499,12 @@ def run(chk):
             vs.update(side="left", quarter_chord_locs=[[-0.2, 0.0, -1.2]], connect_to={"ID": 0, "location": "root", "dx": -3.0, "dz": -0.1})
             ac["wings"]["ventral"] = dict(copy.deepcopy(vs), ID=4, side="right", quarter_chord_locs=[[0.0, 0.0, 0.6]],
                                           connect_to={"ID": 0, "location": "root", "dx": -3.0, "dz": 0.1})
+        if it == 3:
+            # the lifting line on Kuchemann's locus of aerodynamic centres, on a swept two-sided wing and a swept one-sided fin
+            ac = gen.simple_wing_aircraft(N=5, reid=True, sweep=25.0, dihedral=3.0)
+            ac["wings"]["main_wing"]["ll_offset"] = "kuchemann"
+            ac["wings"]["v_stab"].update(sweep=30.0, ll_offset="kuchemann", side="left")
+            chk.count("forced=kuchemann")
         try:
             sc = gen.build_scene(MX, {"scene": {"atmosphere": {"rho": 0.0023769}}}, [("a", ac, {"velocity": 50.0}, {})])
         except Exception as e:
